@@ -158,6 +158,7 @@ func (t *Tokenizer) Reset() {
 	}
 
 	t.line = 0
+	t.posCacheValid = false
 
 	// Don't reset keywords as they're constant
 	t.logger = nil
